@@ -1,8 +1,10 @@
 #!/bin/bash
-# run_seed.sh <seed-dir-name> <ID> [tier] : apply a seeded change to /repo, run the check, undo it straight afterwards
-D=/verif/seeded/$1; ID=$2; TIER=${3:-quick}
+# run_seed.sh <seed-dir-name> [tier] : the literal procedure - apply a stored seeded change to /repo ITSELF, run the property's check, undo it
+# straight afterwards (needs a clean /repo; nothing else may use /repo meanwhile).  tools/seed_rerun.sh does the same for many seeds on scratch
+# worktrees (VERIF_REPO) and is what the recorded meta.json files come from.
+N=$1; D=/verif/seeded/$N; ID=${N%%-*}; TIER=${2:-quick}
 git -C /repo status --short | grep -q . && { echo "/repo not clean"; exit 2; }
 git -C /repo apply $D/patch.diff || exit 2
 trap 'git -C /repo checkout -q -- .; git -C /repo clean -fdq' EXIT
-cd /verif && ./bin/check $ID $TIER 2>&1 | tail -5
+cd /verif && ./bin/check $ID $TIER 2>&1 | grep -E "^(OK|VIOLATION|KNOWN)"
 echo "exit=${PIPESTATUS[0]}"
